@@ -38,7 +38,7 @@ def generate(rng, tier, i):
            'seeds': [rng.choice([0x0000, 0x0001, 0xA55A, 0xFFFE, 0xFFFF, 0x8000, rng.randrange(0, 0x10000)]) for _ in range(4)],
            'c_max_cmdt': rng.choice([1, 1, 3, 255]), 's_max_cmdt': rng.choice([1, 1, 3, 255]),
            'c_addr': rng.choice([0xF9, 0xF9, 0x00, 253, rng.choice([a for a in range(254) if a != S_ADDR])]),
-           'ops': [gen_op(rng) for _ in range(rng.choice([1, 1, 2, 3, 4]))]}
+           'ops': [gen_op(rng) for _ in range(rng.choice([1, 1, 2, 3, 4]))], 'inline_respond': rng.random() < 0.25}
     return scn
 
 
